@@ -13,6 +13,7 @@ if ! (cd "$d/repo" && patch -p1 -s < "$patch"); then echo "PATCH DOES NOT APPLY"
 for id in "$@"; do
   case "$id" in quick|thorough) tier=$id; continue;; esac
   out=$(cd /verif && VERIF_REPO="$d/repo" VERIF_SCRATCH="$d/scratch" VERIF_EVIDENCE_DIR="$d/evidence" VERIF_REPLAY_DIR="$d/replays" ./check "$id" --tier "$tier" 2>&1); rc=$?
-  echo "$out" | grep -E "^(VIOLATION|KNOWN-FINDING|MACHINERY|C[0-9]+ (quick|thorough):)" | head -8
+  echo "$out" | grep -E "^(VIOLATION|MACHINERY)" | head -6
+  echo "$out" | grep -E "^(KNOWN-FINDING|C[0-9]+ (quick|thorough):)" | cut -c1-160 | tail -6
   echo "== $id rc=$rc"
 done
